@@ -20,6 +20,14 @@ operation function `opFn`: the Lean models `applyWithFlip` (regenerated tables),
 that are not Bdds, `panic` for operands over different variable counts, and — for the operations this
 driver has no model of — the observed result of the same operation on the same operand values.
 `agree` = the model's result lists equal `seq`.
+
+`C19.run` also carries `iso`: the hashes of every single operation evaluated once more, on the same
+operand values, by a freshly spawned thread (the result of an operation must not depend on what its
+thread computed before) — identical to `seq` required.
+`C19.rep n pool prog reps => first inproc threads child`: every operation of `prog` (operations whose
+result is not a Bdd: clause lists in the order returned, sorted support, expression text, dot text,
+witnesses, counts) evaluated `reps` times in one thread, on `reps` fresh threads, and `reps` times in
+a child process: all hashes identical to those of the first evaluation required.
 -/
 namespace B.Drive.C19
 open B B.Drive Std
@@ -103,6 +111,11 @@ def buildTable (calls : List (String × Option (List String) × String)) : Fold 
         | some r0 => if r0 == r then st else { st with conflict := st.conflict <|> some ("not-a-function:" ++ op) }
         | none => { st with table := st.table.insert k r }
 
+/-- sorted list of the decision variables of a node array -/
+def supportOf (A : Arr) : List Nat :=
+  let vars := ((A.toList.drop 2).map (·.var)).eraseDups
+  (vars.toArray.qsort (· < ·)).toList
+
 def hashesOf (rs : List String) : String :=
   if rs.isEmpty then "~" else ".".intercalate (rs.map fun r => toString (fnv r).toNat)
 
@@ -115,7 +128,7 @@ def handle (key : String) (ins obs : List String) : Verdict :=
   match key, ins, obs with
   | "C19.types", _, res :: _ =>
     { agree := res == "ok", model := "ok", nontrivial := true, tags := ["send-sync"] }
-  | "C19.run", [_n, poolS, progsS], [seqS, thrS, againS, childS, afterS] =>
+  | "C19.run", [_n, poolS, progsS], [seqS, thrS, againS, childS, afterS, isoS] =>
     let pool := splitList "/" poolS
     let progTexts := progsS.splitOn "/"
     let progs : List (List (Sched.Instr String)) := progTexts.map fun p => (splitList ";" p).map parseInstr
@@ -144,6 +157,9 @@ def handle (key : String) (ins obs : List String) : Verdict :=
       if thrS == seqHashes then none else some "threads-differ-from-sequential",
       if againS == seqHashes then none else some "second-run-differs",
       if childS == seqHashes then none else some "child-process-differs",
+      (let isoT := isoS.splitOn "/"
+       if isoT.length == nThreads && (isoT.zip (seq.map hashesOf)).all (fun (i, h) => i == "-" || i == h) && isoT.any (· != "-")
+       then none else some "isolated-evaluation-on-fresh-thread-differs"),
       if afterS == poolS then none else some "pool-changed",
       if seq.any (·.any (·.endsWith "!operand-changed")) then some "operand-changed" else none,
       fold.conflict]
@@ -154,6 +170,46 @@ def handle (key : String) (ins obs : List String) : Verdict :=
         if progTexts.eraseDups.length < nThreads then "shared-program" else "distinct-programs"] ++
         (if all.contains "panic" then ["has-panic"] else []) ++ (if all.contains "stuck" then ["has-stuck"] else []) ++
         (if calls.any (fun c => modelled (opName c.1)) then ["has-modelled-op"] else []) }
+  | "C19.rep", [_n, poolS, progS, repsS], [firstS, inprocS, threadsS, childS] =>
+    -- every operation of `progS` evaluated `reps` times in one thread / on fresh threads / in a child process
+    let pool := splitList "/" poolS
+    let prog := (splitList ";" progS).map parseInstr
+    let first := splitList ";" firstS
+    let reps := repsS.toNat?.getD 0
+    if first.length != prog.length || reps == 0 then
+      { agree := false, model := "shape", fail := some "shape", nontrivial := false } else
+    let want := "/".intercalate (List.replicate reps (hashesOf first))
+    -- model: the operations this driver can recompute from the node array alone
+    let modelRes : List String := (prog.zip first).map fun (ins, r) =>
+      match Sched.operands pool [] ins with
+      | some [v] =>
+        match opName ins.op, parseArr? v with
+        | "support", some A =>
+          let sup := supportOf A
+          if sup.isEmpty then "[~]" else "[" ++ ",".intercalate (sup.map toString) ++ "]"
+        | "size_per_var", some A =>
+          "[" ++ ".".intercalate ((supportOf A).map fun x => s!"{x}={((A.toList.drop 2).filter (·.var == x)).length}") ++ "]"
+        | "to_string", some A => showArr A
+        | _, _ => r
+      | _ => r
+    let agree := modelRes == first
+    let model := if agree then "" else
+      ((modelRes.zip first).find? fun (m, r) => m != r).elim "?" (·.1)
+    let differs (obsS : String) : Option Nat :=
+      -- index of the first operation whose hash differs in some repetition
+      let runs := (obsS.splitOn "/").map (splitList ".")
+      let h := first.map fun r => toString (fnv r).toNat
+      (List.range first.length).find? fun i => runs.any fun run => run.getD i "" != h.getD i "-"
+    let clause (what : String) (obsS : String) : Option String :=
+      if obsS == want then none else
+        some (what ++ ":" ++ ((differs obsS).elim "shape" fun i => opName ((prog.getD i ⟨"?", []⟩).op)))
+    let fail := firstFail [
+      clause "repetition-in-thread-differs" inprocS,
+      clause "fresh-threads-differ" threadsS,
+      clause "child-process-differs" childS,
+      if first.any (·.endsWith "!operand-changed") then some "operand-changed" else none]
+    let sz := ((pool.headD "").splitOn "|").length - 2
+    { agree, model, fail, nontrivial := sz > 2, tags := ["rep", s!"rep-n{_n}"] }
   | _, _, _ => Verdict.bad ("key " ++ key)
 
 end B.Drive.C19
